@@ -13,7 +13,7 @@ pub fn def() -> CheckDef {
         bounds_quick: "one builder call from an arbitrary state (every state is reachable through the public fields, so one step covers histories): states with <=3 nodes, <=2 hyperedges (arities <=2), <=2 pending pairs, interfaces <=1..2; identifier arguments enumerated including duplicates and one out-of-range value; labels symbolic",
         bounds_thorough: "states with <=4 nodes, <=3 hyperedges; deletion lists of length <=3",
         jobs,
-        budget_s: (120, 2400),
+        budget_s: (120, 1500),
     }
 }
 
@@ -206,7 +206,7 @@ fn oracle_relabel(inp: &PV, out: &PV) -> T {
 }
 
 pub fn jobs(tier: Tier, _seed: u64) -> Vec<Job> {
-    let per_job = Duration::from_secs(if tier == Tier::Quick { 60 } else { 900 });
+    let per_job = Duration::from_secs(if tier == Tier::Quick { 60 } else { 600 });
     let cfg = base_cfg(tier);
     let mut out = vec![];
     let dl = if tier == Tier::Quick { 2usize } else { 3usize };
